@@ -1206,4 +1206,379 @@ theorem realloc_where (cfg : Cfg) (ok : CfgOK cfg) (h : Heap) (p n sz : Nat) (r 
             right; right
             exact ⟨q, r2, hq, hf2, rfl, rfl, rfl, by omega⟩
 
+
+/-! ### memory semantics of the events (specification vocabulary) -/
+
+/-- contents of the arena: byte offset ↦ value -/
+abbrev Mem := Nat → Nat
+
+/-- `m'` is a possible memory after the event: a store changes nothing outside
+its range (the values stored by the allocator are left unspecified), `memcpy`
+copies. -/
+def Ev.Step (m m' : Mem) : Ev → Prop
+  | .w a n => ∀ x, ¬ (a ≤ x ∧ x < a + n) → m' x = m x
+  | .cp d s n => (∀ i, i < n → m' (d + i) = m (s + i)) ∧ ∀ x, ¬ (d ≤ x ∧ x < d + n) → m' x = m x
+
+/-- `m'` is a possible memory after the events, in order -/
+def Exec : Mem → List Ev → Mem → Prop
+  | m, [], m' => m' = m
+  | m, e :: es, m' => ∃ m1, e.Step m m1 ∧ Exec m1 es m'
+
+theorem Ev.Step.frame {m m' : Mem} {e : Ev} {lo hi : Nat} (hs : e.Step m m') (ha : e.Avoids lo hi) :
+    ∀ x, lo ≤ x → x < hi → m' x = m x := by
+  intro x h1 h2
+  cases e with
+  | w a n => exact hs x (by simp only [Ev.Avoids, Ev.lo, Ev.hi] at ha; omega)
+  | cp d s n => exact hs.2 x (by simp only [Ev.Avoids, Ev.lo, Ev.hi] at ha; omega)
+
+theorem Exec.frame {es : List Ev} {m m' : Mem} {lo hi : Nat} (hx : Exec m es m')
+    (ha : ∀ e ∈ es, e.Avoids lo hi) : ∀ x, lo ≤ x → x < hi → m' x = m x := by
+  induction es generalizing m with
+  | nil => intro x _ _; simp only [Exec] at hx; rw [hx]
+  | cons e es ih =>
+    obtain ⟨m1, h1, h2⟩ := hx
+    intro x hlo hhi
+    rw [ih h2 (fun e he => ha e (List.mem_cons_of_mem _ he)) x hlo hhi]
+    exact h1.frame (ha e (by simp)) x hlo hhi
+
+theorem Exec.append {a b : List Ev} {m m' : Mem} (hx : Exec m (a ++ b) m') :
+    ∃ m1, Exec m a m1 ∧ Exec m1 b m' := by
+  induction a generalizing m with
+  | nil => exact ⟨m, rfl, hx⟩
+  | cons e a ih =>
+    obtain ⟨m0, h0, h1⟩ := hx
+    obtain ⟨m1, h2, h3⟩ := ih h1
+    exact ⟨m1, ⟨m0, h0, h2⟩, h3⟩
+
+theorem le_reqLen (W x : Nat) : x ≤ minLen (roundLen W x) := by
+  have := le_roundLen W x
+  unfold minLen; split <;> omega
+
+/-- the pointer a request operates on -/
+def Op.target : Op → Option Nat
+  | .malloc _ => none
+  | .free p => p
+  | .realloc p _ => p
+
+/-- stores of one request avoid every live chunk (header and payload) other
+than the one the request operates on -/
+theorem step_evs_avoid (cfg : Cfg) (ok : CfgOK cfg) (h : Heap) (op : Op) (r : Res) (hi : HInv cfg h)
+    (hs : step cfg h op = some r) :
+    ∀ e ∈ r.evs, ∀ c ∈ h.live, op.target ≠ some (c.1 + 8) → e.Avoids c.1 (c.1 + 8 + c.2) := by
+  intro e he c hc hne
+  cases op with
+  | malloc n => simp only [step] at hs; cases hs; exact malloc_evs_avoid cfg h n hi e he c hc
+  | free p =>
+    cases p with
+    | none => simp only [step] at hs; cases hs; simp at he
+    | some p =>
+      simp only [step] at hs
+      have hp : c.1 ≠ p - 8 := by
+        intro hcp
+        have h8 : 8 ≤ p := by
+          unfold free at hs; split at hs
+          · cases hs
+          · omega
+        apply hne; simp only [Op.target]; congr 1; omega
+      exact free_evs_avoid cfg h p r hi hs e he c hc hp
+  | realloc p n =>
+    simp only [step] at hs
+    cases p with
+    | none =>
+      simp only [realloc, reallocCore] at hs; cases hs
+      exact malloc_evs_avoid cfg h _ hi e he c hc
+    | some p =>
+      have h8 : 8 ≤ p := by
+        unfold realloc reallocCore at hs; simp only at hs; split at hs
+        · cases hs
+        · omega
+      have hp : c.1 ≠ p - 8 := by
+        intro hcp; apply hne; simp only [Op.target]; congr 1; omega
+      have hl : ∃ sz, lookup (p - 8) h.live = some sz := by
+        unfold realloc reallocCore at hs; simp only at hs; split at hs
+        · cases hs
+        · split at hs
+          · cases hs
+          · rename_i sz hl; exact ⟨sz, hl⟩
+      obtain ⟨sz, hl⟩ := hl
+      have hN := lookup_mem hl
+      have hdis := hi.disj_live_live hc hl hp
+      unfold Disj at hdis; simp only at hdis
+      rcases realloc_where cfg ok h p n sz r hi hl hs with ⟨_, hw⟩ | ⟨_, _, hev⟩ | ⟨q, r2, hq, hf2, _, _, hev, hlt⟩
+      · rcases hw e he with hin | hin | ⟨f, hf, hin⟩
+        · exact hin.avoids (by omega)
+        · exact hin.avoids (by omega)
+        · exact hin.avoids (by have := hi.disj_free_live hf hc; omega)
+      · rw [hev] at he; simp at he
+      · rw [hev] at he
+        have him := malloc_inv cfg ok h (minLen (roundLen cfg.W n)) hi
+        obtain ⟨s, hlive, hq8, hs⟩ := malloc_ret_some hq
+        have hc1 : c ∈ (malloc cfg h (minLen (roundLen cfg.W n))).h.live := by rw [hlive]; exact List.mem_cons_of_mem _ hc
+        rcases List.mem_append.1 he with he | he
+        · exact malloc_evs_avoid cfg h _ hi e he c hc
+        · rcases List.mem_cons.1 he with rfl | he
+          · -- memcpy into the fresh chunk, which does not overlap `c`
+            have hd : Disj (q - 8, s) c := by
+              apply disj_of_hasN; intro x
+              have := him.tile x; rw [hlive] at this
+              have := hasN_le_cnt (x := x) hc
+              simp only [cnt_cons] at *; split at * <;> omega
+            have hmm := le_reqLen cfg.W (minLen (roundLen cfg.W n))
+            unfold Disj at hd; simp only at hd
+            simp only [Ev.Avoids, Ev.lo, Ev.hi]; omega
+          · exact free_evs_avoid cfg _ p r2 him hf2 e he c hc1 hp
+
+
+theorem realloc_prefix' (cfg : Cfg) (ok : CfgOK cfg) (h : Heap) (p n sz q : Nat) (r : Res) (hi : HInv cfg h)
+    (hl : lookup (p - 8) h.live = some sz) (hr : realloc cfg h (some p) n = some r)
+    (hq : r.ret = some q) (m m' : Mem) (hx : Exec m r.evs m') :
+    ∀ i, i < min sz n → m' (q + i) = m (p + i) := by
+  have h8 : 8 ≤ p := by
+    unfold realloc reallocCore at hr; simp only at hr; split at hr
+    · cases hr
+    · omega
+  have hN := lookup_mem hl
+  obtain ⟨hN8, _, _⟩ := hi.wfL _ hN
+  simp only at hN8
+  have hnl := le_reqLen cfg.W n
+  rcases realloc_where cfg ok h p n sz r hi hl hr with ⟨hret, hw⟩ | ⟨hret, _, _⟩ | ⟨q', r2, hq', hf2, _, hret, hev, hlt⟩
+  · rw [hret] at hq; cases hq
+    intro i hi'
+    refine Exec.frame hx (lo := p) (hi := p + min sz (minLen (roundLen cfg.W n))) (fun e he => ?_) (p + i) (by omega) (by omega)
+    rcases hw e he with hin | hin | ⟨f, hf, hin⟩
+    · exact hin.avoids (by omega)
+    · exact hin.avoids (by omega)
+    · have := hi.disj_free_live hf hN; simp only at this
+      exact hin.avoids (by omega)
+  · rw [hret] at hq; cases hq
+  · rw [hret] at hq; cases hq
+    rw [hev] at hx
+    obtain ⟨m1, hA, hB⟩ := Exec.append hx
+    obtain ⟨m2, hcp, hB⟩ := hB
+    have him := malloc_inv cfg ok h (minLen (roundLen cfg.W n)) hi
+    obtain ⟨s, hlive, hq8, hs⟩ := malloc_ret_some hq'
+    have hmm := le_reqLen cfg.W (minLen (roundLen cfg.W n))
+    -- the fresh chunk does not overlap the old one
+    have hd : Disj (q - 8, s) (p - 8, sz) := by
+      apply disj_of_hasN; intro x
+      have := him.tile x; rw [hlive] at this
+      have := hasN_le_cnt (x := x) hN
+      simp only [cnt_cons] at *; split at * <;> omega
+    unfold Disj at hd; simp only at hd
+    intro i hi'
+    -- malloc does not touch the old block
+    have h1 : m1 (p + i) = m (p + i) :=
+      Exec.frame hA (lo := p - 8) (hi := p - 8 + 8 + sz)
+        (fun e he => malloc_evs_avoid cfg h _ hi e he _ hN) (p + i) (by omega) (by omega)
+    -- memcpy
+    have h2 : m2 (q + i) = m1 (p + i) := hcp.1 i (by omega)
+    -- free(old) does not touch the fresh chunk
+    have hnew : ((q - 8, s) : Chunk) ∈ (malloc cfg h (minLen (roundLen cfg.W n))).h.live := by rw [hlive]; simp
+    have h3 : m' (q + i) = m2 (q + i) :=
+      Exec.frame hB (lo := q - 8) (hi := q - 8 + 8 + s)
+        (fun e he => free_evs_avoid cfg _ p r2 him hf2 e he _ hnew (by simp only; omega)) (q + i) (by omega) (by omega)
+    rw [h3, h2, h1]
+
+
+theorem free_live {h : Heap} {p : Nat} {r : Res} (hr : free h p = some r) :
+    r.h.live = remove (p - 8) h.live ∧ 8 ≤ p ∧ ∃ sz, lookup (p - 8) h.live = some sz := by
+  unfold free at hr
+  split at hr
+  · cases hr
+  simp only at hr
+  split at hr
+  · cases hr
+  rename_i sz hl
+  refine ⟨?_, by omega, sz, hl⟩
+  split at hr
+  · split at hr <;> (cases hr; rfl)
+  · split at hr <;> (cases hr; rfl)
+
+theorem lookup_setChunk_self {a s s' : Nat} {l : List Chunk} (h : lookup a l = some s) :
+    lookup a (setChunk a (a, s') l) = some s' := by
+  induction l with
+  | nil => simp [lookup] at h
+  | cons c l ih =>
+    simp only [lookup] at h
+    simp only [setChunk]
+    split at h
+    · rename_i hc; simp [hc, lookup]
+    · rename_i hc; simp only [hc, ↓reduceIte, lookup]; exact ih h
+
+/-- a valid request never faults -/
+theorem free_total {h : Heap} {p sz : Nat} (h8 : 8 ≤ p) (hl : lookup (p - 8) h.live = some sz) :
+    ∃ r, free h p = some r := by
+  unfold free
+  rw [if_neg (by omega)]
+  simp only [hl]
+  split
+  · split <;> exact ⟨_, rfl⟩
+  · split <;> exact ⟨_, rfl⟩
+
+theorem realloc_total {cfg : Cfg} {h : Heap} {p sz n : Nat} (h8 : 8 ≤ p) (hl : lookup (p - 8) h.live = some sz) :
+    ∃ r, realloc cfg h (some p) n = some r := by
+  unfold realloc reallocCore
+  simp only
+  rw [if_neg (by omega)]
+  simp only [hl]
+  generalize minLen (roundLen cfg.W n) = len
+  split
+  · split
+    · exact ⟨_, rfl⟩
+    · have hp : p + len + 8 - 8 = p + len := by omega
+      have hf := free_total (h := ⟨h.brk, h.flp, (p + len, sz - len - 8) :: setChunk (p - 8) (p - 8, len) h.live⟩)
+        (p := p + len + 8) (sz := sz - len - 8) (by omega) (by simp [lookup, hp])
+      obtain ⟨r, hr⟩ := hf
+      rw [hr]; exact ⟨_, rfl⟩
+  · split
+    · split <;> exact ⟨_, rfl⟩
+    · split
+      · split <;> exact ⟨_, rfl⟩
+      · split
+        · exact ⟨_, rfl⟩
+        · rename_i q hq
+          obtain ⟨s, hlive, _, _⟩ := malloc_ret_some hq
+          have : ∃ sz', lookup (p - 8) (malloc cfg h len).h.live = some sz' := by
+            rw [hlive]; simp only [lookup]; split
+            · exact ⟨_, rfl⟩
+            · exact ⟨_, hl⟩
+          obtain ⟨sz', hl'⟩ := this
+          obtain ⟨r2, hr2⟩ := free_total h8 hl'
+          rw [hr2]; exact ⟨_, rfl⟩
+
+/-- the block returned by realloc is live afterwards and at least as large as requested -/
+theorem realloc_result (cfg : Cfg) (ok : CfgOK cfg) (h : Heap) (p n sz q : Nat) (r : Res) (hi : HInv cfg h)
+    (hl : lookup (p - 8) h.live = some sz) (hr : realloc cfg h (some p) n = some r) (hq : r.ret = some q) :
+    ∃ s, lookup (q - 8) r.h.live = some s ∧ n ≤ s ∧ 8 ≤ q := by
+  have hnl := le_reqLen cfg.W n
+  have hN := lookup_mem hl
+  unfold realloc reallocCore at hr
+  simp only at hr
+  generalize minLen (roundLen cfg.W n) = len at *
+  split at hr
+  · cases hr
+  rename_i hp8
+  rw [hl] at hr
+  simp only at hr
+  split at hr
+  · rename_i hle
+    split at hr
+    · cases hr; cases hq; exact ⟨sz, hl, by omega, by omega⟩
+    · split at hr
+      · cases hr
+      · rename_i r1 hf
+        cases hr; cases hq
+        obtain ⟨hlive, _, _⟩ := free_live hf
+        have hp : p + len + 8 - 8 = p + len := by omega
+        simp only at hlive ⊢
+        rw [hlive, hp]
+        simp only [remove, ↓reduceIte]
+        exact ⟨len, lookup_setChunk_self hl, by omega, by omega⟩
+  · rename_i hgt
+    split at hr
+    · rename_i fp3 hg
+      obtain ⟨hm3, ha3, hs3⟩ := growScan_inl hg
+      split at hr
+      · cases hr; cases hq; exact ⟨len, lookup_setChunk_self hl, by omega, by omega⟩
+      · cases hr; cases hq; exact ⟨_, lookup_setChunk_self hl, by omega, by omega⟩
+    · split at hr
+      · split at hr
+        · cases hr; cases hq
+        · cases hr; cases hq; exact ⟨len, lookup_setChunk_self hl, by omega, by omega⟩
+      · split at hr
+        · cases hr; cases hq
+        · rename_i q' hq'
+          split at hr
+          · cases hr
+          · rename_i r2 hf2
+            cases hr; cases hq
+            obtain ⟨s, hlive, hq8, hs⟩ := malloc_ret_some hq'
+            obtain ⟨hlive2, _, _⟩ := free_live hf2
+            have him := malloc_inv cfg ok h len hi
+            have hd : Disj (q - 8, s) (p - 8, sz) := by
+              apply disj_of_hasN; intro x
+              have := him.tile x; rw [hlive] at this
+              have := hasN_le_cnt (x := x) hN
+              simp only [cnt_cons] at *; split at * <;> omega
+            unfold Disj at hd; simp only at hd
+            have hmm := le_reqLen cfg.W len
+            simp only
+            rw [hlive2, hlive]
+            simp only [remove]
+            rw [if_neg (by omega)]
+            simp only [lookup, ↓reduceIte]
+            exact ⟨s, rfl, by omega, hq8⟩
+
+/-- every other live chunk is still live, with the same size, after the request -/
+theorem step_keeps_others (cfg : Cfg) (ok : CfgOK cfg) (h : Heap) (op : Op) (r : Res) (hi : HInv cfg h)
+    (hs : step cfg h op = some r) :
+    ∀ c ∈ h.live, op.target ≠ some (c.1 + 8) → c ∈ r.h.live := by
+  intro c hc hne
+  cases op with
+  | malloc n =>
+    simp only [step] at hs; cases hs
+    cases hq : (malloc cfg h n).ret with
+    | none => rw [(malloc_ret_none hq).1]; exact hc
+    | some q => obtain ⟨s, hlive, _, _⟩ := malloc_ret_some hq; rw [hlive]; exact List.mem_cons_of_mem _ hc
+  | free p =>
+    cases p with
+    | none => simp only [step] at hs; cases hs; exact hc
+    | some p =>
+      simp only [step] at hs
+      obtain ⟨hlive, h8, _⟩ := free_live hs
+      rw [hlive]
+      exact mem_remove_of_ne hc (by intro hcp; apply hne; simp only [Op.target]; congr 1; omega)
+  | realloc p n =>
+    simp only [step] at hs
+    cases p with
+    | none =>
+      simp only [realloc, reallocCore] at hs; cases hs
+      cases hq : (malloc cfg h (minLen (roundLen cfg.W n))).ret with
+      | none => rw [(malloc_ret_none hq).1]; exact hc
+      | some q => obtain ⟨s, hlive, _, _⟩ := malloc_ret_some hq; rw [hlive]; exact List.mem_cons_of_mem _ hc
+    | some p =>
+      unfold realloc reallocCore at hs
+      simp only at hs
+      generalize minLen (roundLen cfg.W n) = len at *
+      split at hs
+      · cases hs
+      rename_i hp8
+      have hp : c.1 ≠ p - 8 := by intro hcp; apply hne; simp only [Op.target]; congr 1; omega
+      split at hs
+      · cases hs
+      rename_i sz hl
+      have hdis := hi.disj_live_live hc hl hp
+      unfold Disj at hdis; simp only at hdis
+      split at hs
+      · split at hs
+        · cases hs; exact hc
+        · split at hs
+          · cases hs
+          · rename_i r1 hf
+            cases hs
+            obtain ⟨hlive, _, _⟩ := free_live hf
+            have hpe : p + len + 8 - 8 = p + len := by omega
+            simp only at hlive ⊢
+            rw [hlive, hpe]
+            simp only [remove, ↓reduceIte]
+            exact mem_setChunk_of_ne hc hp
+      · split at hs
+        · split at hs <;> (cases hs; exact mem_setChunk_of_ne hc hp)
+        · split at hs
+          · split at hs
+            · cases hs; exact hc
+            · cases hs; exact mem_setChunk_of_ne hc hp
+          · split at hs
+            · rename_i hq; cases hs; rw [(malloc_ret_none hq).1]; exact hc
+            · rename_i q hq
+              split at hs
+              · cases hs
+              · rename_i r2 hf2
+                cases hs
+                obtain ⟨s, hlive, _, _⟩ := malloc_ret_some hq
+                obtain ⟨hlive2, _, _⟩ := free_live hf2
+                simp only
+                rw [hlive2, hlive]
+                exact mem_remove_of_ne (List.mem_cons_of_mem _ hc) hp
+
 end Igris.C10
